@@ -276,3 +276,90 @@ func (ex *Exec) snapEq(a, b *snapNode) *Term {
 }
 
 // locksetMon is defined in lockset.go
+
+// ---------------------------------------------------------------- havoc
+
+// havoc assigns a fresh symbolic value to every mutable location reachable from v (exported fields, every slice
+// element up to capacity, every map value plus one new key). Followed by "snapshot of the other value unchanged"
+// this is literally "mutating any part of one never changes the other"; the solver finds the shared location.
+func (ex *Exec) havoc(v Value, t types.Type, seen map[*Value]bool, depth int) {
+	if depth > 12 || t == nil {
+		return
+	}
+	switch x := v.(type) {
+	case Ptr:
+		if x.IsNil() || seen[x.C] {
+			return
+		}
+		seen[x.C] = true
+		pt, ok := t.Underlying().(*types.Pointer)
+		if !ok {
+			return
+		}
+		ex.havocCell(x.C, pt.Elem(), seen, depth+1)
+	case Iface:
+		if x.T != nil {
+			ex.havoc(x.V, x.T, seen, depth+1)
+		}
+	}
+}
+
+func (ex *Exec) havocCell(c *Value, t types.Type, seen map[*Value]bool, depth int) {
+	if depth > 14 {
+		return
+	}
+	switch u := t.Underlying().(type) {
+	case *types.Basic:
+		switch {
+		case u.Info()&types.IsString != 0:
+			*c = ex.freshVar("havoc", SStr, "string", false)
+		case u.Info()&types.IsInteger != 0:
+			*c = ex.freshVar("havoc", SInt, "int", false)
+		case u.Info()&types.IsBoolean != 0:
+			*c = ex.freshVar("havoc", SBool, "bool", false)
+		}
+	case *types.Struct:
+		st, ok := (*c).(Struct)
+		if !ok {
+			return
+		}
+		for i := 0; i < u.NumFields(); i++ {
+			if !u.Field(i).Exported() {
+				continue
+			}
+			ex.havocCell(&st[i], u.Field(i).Type(), seen, depth+1)
+		}
+	case *types.Pointer:
+		if p, ok := (*c).(Ptr); ok && !p.IsNil() && !seen[p.C] {
+			seen[p.C] = true
+			ex.havocCell(p.C, u.Elem(), seen, depth+1)
+		}
+	case *types.Slice:
+		s, ok := (*c).(Slice)
+		if !ok || s.Nil {
+			return
+		}
+		for i := 0; i < s.Cap; i++ {
+			ex.havocCell(&s.Arr[s.Off+i], u.Elem(), seen, depth+1)
+		}
+	case *types.Map:
+		m, ok := (*c).(*Map)
+		if !ok || m == nil {
+			return
+		}
+		for i := range m.Entries {
+			ex.havocCell(&m.Entries[i].V, u.Elem(), seen, depth+1)
+		}
+		var k Value
+		if isIntType(u.Key()) {
+			k = int64(424242)
+		} else if isStringType(u.Key()) {
+			k = "havoc-key"
+		} else {
+			return
+		}
+		var nv Value = ex.zero(u.Elem())
+		m.Entries = append(m.Entries, mapEntry{K: k, V: nv})
+		ex.havocCell(&m.Entries[len(m.Entries)-1].V, u.Elem(), seen, depth+1)
+	}
+}
